@@ -259,6 +259,13 @@ class Verdict(object):
 
     def finish(self, level, coverage, assumptions):
         os.makedirs(EVID, exist_ok=True)
+        if not getattr(self, "_probed", False) and os.environ.get("VERIF_NO_IMPORT_PROBE") != "1":
+            self._probed = True
+            try:
+                for m_ in import_order_probe(self.pid):
+                    self.violation(m_, {"probe": "harness/isolated.py", "property": self.pid})
+            except Exception as ex_:
+                raise MachineryError("import-order probe failed to run: %r" % (ex_,))
         rd = os.path.join(WORK, self.pid, "replay")
         shutil.rmtree(rd, ignore_errors=True)
         os.makedirs(rd, exist_ok=True)
@@ -365,6 +372,41 @@ def write_json(path, obj):
     with open(path, "w") as f:
         json.dump(obj, f, default=_js)
     return path
+
+
+def import_order_probe(pid):
+    """harness/isolated.py evaluates a fixed probe of the property's functions in fresh interpreters that import (or use) other parts
+    of the package FIRST, in different orders.  The printed values must be identical: what a module does to shared tables when it is
+    imported or first used must not change what the functions under test return.  Returns a list of discrepancy texts."""
+    import json as _json
+    from concurrent.futures import ThreadPoolExecutor
+    orders = ["", "laue", "tools", "parameters,detector,symmetry,structure,laue,tools", "warm"]
+    script = os.path.join(VERIF, "harness", "isolated.py")
+
+    def one(order):
+        e = dict(os.environ, PYTHONHASHSEED="0", PYTHONDONTWRITEBYTECODE="1")
+        e.pop("PYTHONPATH", None)
+        q = subprocess.run([sys.executable, script, REPO, order, pid], stdout=subprocess.PIPE, stderr=subprocess.PIPE, env=e, timeout=600)
+        txt = q.stdout.decode("utf-8", "replace")
+        line = [l for l in txt.splitlines() if l.startswith("@@")]
+        if q.returncode != 0 or not line:
+            return order, None, q.stderr.decode("utf-8", "replace")[-600:]
+        return order, _json.loads(line[-1][2:]), ""
+    with ThreadPoolExecutor(max_workers=len(orders)) as ex:
+        res = list(ex.map(one, orders))
+    out = []
+    ref_order, ref, err = res[0]
+    for order, val, err in res:
+        if val is None:
+            out.append("a fresh interpreter that first imports/uses [%s] fails on the probe of %s: %s" % (order or "nothing", pid, err.strip().splitlines()[-1:] ))
+    ok = [(o, v_) for (o, v_, e_) in res if v_ is not None]
+    for (o, v_) in ok[1:]:
+        for k in sorted(ok[0][1]):
+            if v_.get(k) != ok[0][1][k]:
+                out.append("%s returns %s in a process that first imports/uses [%s] and %s in one that first imports/uses [%s]: the result depends "
+                           "on import order or on what ran first" % (k, str(v_.get(k))[:120], o or "nothing", str(ok[0][1][k])[:120], ok[0][0] or "nothing"))
+                break
+    return out
 
 
 def package_in_use():
